@@ -1,11 +1,14 @@
 """C10 - reserve only ever adds room and never changes contents (structural part)."""
 from ..rules_vector import Checker, rule_C10
+from ..corpus import FilterRec
+from ..rules_bounds import rule_B3u
 from ._common import run_vector
 
 
 def rule(tu, rec):
     ck = Checker(tu, rec, "C10")
     rule_C10(ck)
+    rule_B3u(Checker(tu, FilterRec(rec, ("reserve",)), "C10"), "RS-copy:reserve")
 
 
 def run(tier, seed, only=None):
